@@ -189,7 +189,8 @@ a_lsb = lambda f: f['lsb']
 Enc('BfcA1', 'A', 'cond 0111110 msb Rd lsb 001 1111', family=FAM, unpred=regs_unpred(False, 'Rd'),
     sem=bf_insert_sem(a_lsb, True))
 Enc('BfiA1', 'A', 'cond 0111110 msb Rd lsb 001 Rn', family=FAM, guard=lambda f: f['Rn'] != 15,
-    unpred=regs_unpred(False, 'Rd'), sem=bf_insert_sem(a_lsb, False))
+    unpred=regs_unpred(False, 'Rd'), sem=bf_insert_sem(a_lsb, False),
+    known=[('F009', lambda f, S: f['lsb'] != 0)])
 Enc('SbfxA1', 'A', 'cond 0111101 widthm1 Rd lsb 101 Rn', family=FAM, unpred=regs_unpred(False, 'Rd', 'Rn'),
     sem=bf_extract_sem(a_lsb, True))
 Enc('UbfxA1', 'A', 'cond 0111111 widthm1 Rd lsb 101 Rn', family=FAM, unpred=regs_unpred(False, 'Rd', 'Rn'),
@@ -197,7 +198,8 @@ Enc('UbfxA1', 'A', 'cond 0111111 widthm1 Rd lsb 101 Rn', family=FAM, unpred=regs
 Enc('BfcT1', 'T32', '11110 (0) 11 011 0 1111 0 imm3 Rd imm2 (0) msb', family=FAM, unpred=regs_unpred(True, 'Rd'),
     sem=bf_insert_sem(imm32_, True))
 Enc('BfiT1', 'T32', '11110 (0) 11 011 0 Rn 0 imm3 Rd imm2 (0) msb', family=FAM, guard=lambda f: f['Rn'] != 15,
-    unpred=lambda f, S: z3.Or(badreg(f['Rd']), f['Rn'] == 13), sem=bf_insert_sem(imm32_, False))
+    unpred=lambda f, S: z3.Or(badreg(f['Rd']), f['Rn'] == 13), sem=bf_insert_sem(imm32_, False),
+    known=[('F009', lambda f, S: imm32_(f) != 0)])
 Enc('SbfxT1', 'T32', '11110 (0) 11 010 0 Rn 0 imm3 Rd imm2 (0) widthm1', family=FAM,
     unpred=regs_unpred(True, 'Rd', 'Rn'), sem=bf_extract_sem(imm32_, True))
 Enc('UbfxT1', 'T32', '11110 (0) 11 110 0 Rn 0 imm3 Rd imm2 (0) widthm1', family=FAM,
